@@ -78,7 +78,10 @@ fn c05_roundtrip_b0(q: Quaternion<R>) {
     let m: Matrix3<R> = q.into(); let a = a3(m);
     vassume(a[0][0] + a[1][1] + a[2][2] >= R(0.0));
     let r: Quaternion<R> = m.into();
-    vassert("b0: r = q or -q", qeq(r, q) | qeq(r, qneg(q)));
+    vlemma("b0: r = q or -q", qeq(r, q) | qeq(r, qneg(q)));
+    // hence the round trip matrix -> quaternion -> matrix is the identity on rotation matrices (used by C09)
+    vassert_eq("b0: M(Quaternion::from(M(q))) = M(q)", a3(Matrix3::from(r)), qmat(r));
+    vassert_eq("b0: M(r) = M(q)", qmat(r), a);
     vassert("b0: w >= 0", r.s >= R(0.0));
     vcover("end");
 }
@@ -87,7 +90,10 @@ fn c05_roundtrip_b1(q: Quaternion<R>) {
     let m: Matrix3<R> = q.into(); let a = a3(m);
     vassume(a[0][0] + a[1][1] + a[2][2] < R(0.0)); vassume(a[0][0] > a[1][1]); vassume(a[0][0] > a[2][2]);
     let r: Quaternion<R> = m.into();
-    vassert("b1: r = q or -q", qeq(r, q) | qeq(r, qneg(q)));
+    vlemma("b1: r = q or -q", qeq(r, q) | qeq(r, qneg(q)));
+    // hence the round trip matrix -> quaternion -> matrix is the identity on rotation matrices (used by C09)
+    vassert_eq("b1: M(Quaternion::from(M(q))) = M(q)", a3(Matrix3::from(r)), qmat(r));
+    vassert_eq("b1: M(r) = M(q)", qmat(r), a);
     vassert("b1: x >= 0", r.v.x >= R(0.0));
     vcover("end");
 }
@@ -96,7 +102,10 @@ fn c05_roundtrip_b2(q: Quaternion<R>) {
     let m: Matrix3<R> = q.into(); let a = a3(m);
     vassume(a[0][0] + a[1][1] + a[2][2] < R(0.0)); vassume(!((a[0][0] > a[1][1]) & (a[0][0] > a[2][2]))); vassume(a[1][1] > a[2][2]);
     let r: Quaternion<R> = m.into();
-    vassert("b2: r = q or -q", qeq(r, q) | qeq(r, qneg(q)));
+    vlemma("b2: r = q or -q", qeq(r, q) | qeq(r, qneg(q)));
+    // hence the round trip matrix -> quaternion -> matrix is the identity on rotation matrices (used by C09)
+    vassert_eq("b2: M(Quaternion::from(M(q))) = M(q)", a3(Matrix3::from(r)), qmat(r));
+    vassert_eq("b2: M(r) = M(q)", qmat(r), a);
     vassert("b2: y >= 0", r.v.y >= R(0.0));
     vcover("end");
 }
@@ -105,7 +114,10 @@ fn c05_roundtrip_b3(q: Quaternion<R>) {
     let m: Matrix3<R> = q.into(); let a = a3(m);
     vassume(a[0][0] + a[1][1] + a[2][2] < R(0.0)); vassume(!((a[0][0] > a[1][1]) & (a[0][0] > a[2][2]))); vassume(!(a[1][1] > a[2][2]));
     let r: Quaternion<R> = m.into();
-    vassert("b3: r = q or -q", qeq(r, q) | qeq(r, qneg(q)));
+    vlemma("b3: r = q or -q", qeq(r, q) | qeq(r, qneg(q)));
+    // hence the round trip matrix -> quaternion -> matrix is the identity on rotation matrices (used by C09)
+    vassert_eq("b3: M(Quaternion::from(M(q))) = M(q)", a3(Matrix3::from(r)), qmat(r));
+    vassert_eq("b3: M(r) = M(q)", qmat(r), a);
     vassert("b3: z >= 0", r.v.z >= R(0.0));
     vcover("end");
 }
